@@ -256,3 +256,164 @@ type QueryOpts struct {
 	ProduceModels bool
 	Logic         string
 }
+
+// QueryArith builds a purely arithmetic weakening of the obligation: every maximal sub-term that is not built from
+// arithmetic / Boolean operators is replaced by an opaque constant (the same term always by the same constant), quantified
+// hypotheses are dropped. Any model of the original query induces a model of this one, so "unsat" here is a valid proof.
+// It lets nlsat decide obligations that are non-linear real arithmetic at heart.
+func (c *Ctx) QueryArith(hyps []*Term, goal *Term) string {
+	arith := map[string]bool{"+": true, "-": true, "*": true, "/": true, "<": true, "<=": true, ">": true, ">=": true, "=": true,
+		"and": true, "or": true, "not": true, "=>": true, "ite": true, "to_real": true}
+	opaque := map[string]string{}
+	osort := map[string]Sort{}
+	var order []string
+	mkOpaque := func(t *Term) *Term {
+		k := t.String()
+		n, ok := opaque[k]
+		if !ok {
+			n = fmt.Sprintf("o!%d", len(opaque))
+			opaque[k] = n
+			osort[n] = t.Sort
+			order = append(order, n)
+		}
+		return Const(n, t.Sort)
+	}
+	defsUsed := map[string]bool{}
+	var defOrder []string
+	var abs func(t *Term) *Term
+	abs = func(t *Term) *Term {
+		if t.Q != "" {
+			return mkOpaque(t)
+		}
+		if t.Sort != SReal && t.Sort != SInt && t.Sort != SBool {
+			return nil
+		}
+		if len(t.Args) == 0 {
+			if t.lit || t.Op == "true" || t.Op == "false" {
+				return t
+			}
+			if _, isDef := c.defs[t.Op]; isDef && !defsUsed[t.Op] {
+				defsUsed[t.Op] = true
+				defOrder = append(defOrder, t.Op)
+			}
+			return t
+		}
+		if !arith[t.Op] {
+			return mkOpaque(t)
+		}
+		args := make([]*Term, len(t.Args))
+		for i, a := range t.Args {
+			if t.Op == "=" && a.Sort != SReal && a.Sort != SInt && a.Sort != SBool {
+				return mkOpaque(t)
+			}
+			r := abs(a)
+			if r == nil {
+				return mkOpaque(t)
+			}
+			args[i] = r
+		}
+		return &Term{Op: t.Op, Args: args, Sort: t.Sort}
+	}
+	var asserts []*Term
+	for _, h := range hyps {
+		if h.Q != "" {
+			continue
+		}
+		if a := abs(h); a != nil {
+			asserts = append(asserts, a)
+		}
+	}
+	var g *Term
+	if goal != nil {
+		g = abs(goal)
+	}
+	// definitions of arithmetic constants (transitively)
+	var defAsserts []*Term
+	consts := map[string]Sort{}
+	for i := 0; i < len(defOrder); i++ {
+		k := defOrder[i]
+		d := c.defs[k]
+		if d.Sort != SReal && d.Sort != SInt && d.Sort != SBool {
+			continue
+		}
+		if a := abs(d); a != nil {
+			defAsserts = append(defAsserts, App("=", SBool, Const(k, d.Sort), a))
+		}
+	}
+	collect := func(t *Term) {
+		cs, fs := map[string]bool{}, map[string]bool{}
+		t.FreeSyms(cs, fs, map[string]int{})
+		for k := range cs {
+			if s, ok := c.consts[k]; ok {
+				consts[k] = s
+			}
+		}
+	}
+	for _, a := range asserts {
+		collect(a)
+	}
+	for _, a := range defAsserts {
+		collect(a)
+	}
+	if g != nil {
+		collect(g)
+	}
+	// pure real arithmetic when the goal allows it: drop everything that mentions an integer (a further weakening)
+	var hasInt func(t *Term) bool
+	hasInt = func(t *Term) bool {
+		if t.Sort == SInt {
+			return true
+		}
+		for _, a := range t.Args {
+			if hasInt(a) {
+				return true
+			}
+		}
+		return false
+	}
+	realOnly := g != nil && !hasInt(g)
+	if realOnly {
+		filter := func(in []*Term) []*Term {
+			var out []*Term
+			for _, a := range in {
+				if !hasInt(a) {
+					out = append(out, a)
+				}
+			}
+			return out
+		}
+		asserts = filter(asserts)
+		defAsserts = filter(defAsserts)
+	}
+	var sb strings.Builder
+	if realOnly {
+		sb.WriteString("(set-logic QF_NRA)\n")
+	}
+	for _, k := range sortedKeys(consts) {
+		s := consts[k]
+		if s != SReal && s != SInt && s != SBool {
+			continue
+		}
+		if realOnly && s == SInt {
+			continue
+		}
+		sb.WriteString("(declare-const " + k + " " + s + ")\n")
+	}
+	for _, n := range order {
+		if realOnly && osort[n] == SInt {
+			continue
+		}
+		sb.WriteString("(declare-const " + n + " " + osort[n] + ")\n")
+	}
+	for _, a := range defAsserts {
+		sb.WriteString("(assert " + a.String() + ")\n")
+	}
+	for _, a := range asserts {
+		sb.WriteString("(assert " + a.String() + ")\n")
+	}
+	if g != nil {
+		sb.WriteString("(assert (not " + g.String() + "))\n")
+	}
+	sb.WriteString("(check-sat)\n")
+	return sb.String()
+}
